@@ -11,7 +11,11 @@ PROP=$(python3 -c "import json,sys;print(json.load(open('$S/meta.json'))['proper
 WT=/tmp/seedtest_$$
 git -C /repo worktree add -q --detach $WT HEAD || exit 2
 git -C $WT apply "$S/patch.diff" || { echo "patch does not apply"; git -C /repo worktree remove --force $WT; exit 2; }
+cp "$DIR/evidence/$PROP.json" /tmp/seedtest_ev_$$.json 2>/dev/null
 VERIF_REPO=$WT "$DIR/check" "$PROP" --tier "$TIER" > "$S/last_run.txt" 2>&1
 rc=$?
+# the evidence file must describe the unchanged tree: keep this run's copy beside the seeded change, restore the old one
+cp "$DIR/evidence/$PROP.json" "$S/evidence_of_this_run.json" 2>/dev/null
+[ -f /tmp/seedtest_ev_$$.json ] && mv /tmp/seedtest_ev_$$.json "$DIR/evidence/$PROP.json"
 git -C /repo worktree remove --force $WT
 if [ $rc -ne 0 ] && grep -q "^VIOLATION property=$PROP" "$S/last_run.txt"; then echo "CAUGHT $1 ($PROP, $TIER): $(grep -c '^VIOLATION' "$S/last_run.txt") violation line(s)"; else echo "MISSED $1 ($PROP, $TIER) rc=$rc"; fi
